@@ -17,11 +17,17 @@ for meta in sorted(glob.glob(os.path.join(ROOT, "seeded", "*", "meta.json"))):
         print("refusing: /repo has local changes:\n" + st); sys.exit(2)
     if subprocess.run(["git", "-C", "/repo", "apply", patch]).returncode != 0:
         rows.append((sid, pid, "patch does not apply", "")); continue
+    # the evidence file of the property is rewritten by the run on the PATCHED tree: keep the clean one
+    evf = os.path.join(ROOT, "evidence", pid + ".json")
+    saved = open(evf).read() if os.path.exists(evf) else None
     try:
         p = subprocess.run([os.path.join(ROOT, "check"), pid], capture_output=True, text=True, timeout=3000)
         out = p.stdout + p.stderr
     finally:
         subprocess.run(["git", "-C", "/repo", "checkout", "--", "."])
+        if saved is not None:
+            with open(evf, "w") as f:
+                f.write(saved)
     vio = [l for l in out.split("\n") if l.startswith("VIOLATION ")]
     with_input = [l for l in vio if "no-failing-input-found" not in l]
     verdict = "MISSED" if p.returncode == 0 else ("caught, failing input" if with_input else "caught, no-failing-input-found")
